@@ -776,7 +776,37 @@ func (e *c03Env) checkForward(f *c03Flow, desc string, in ksRunIn, out ksRunOut,
 		if e.verdictName(peer.Verdict) != "OK" || peer.Mark != uint32(e.kc["TPROXY_MARK"]) || peer.SockRefsLeaked != 0 {
 			e.failf("%s: dae0peer_ingress on the redirected frame: verdict %s mark %#x leaked refs %d", desc, e.verdictName(peer.Verdict), peer.Mark, peer.SockRefsLeaked)
 		}
+		e.replyThroughDae0(f, desc, in)
 	}
+}
+
+// replyThroughDae0: what dae sends back for a redirected flow enters dae0_ingress and must
+// be steered to the interface the original frame was captured on (into the stack for
+// locally originated flows), with the link addresses of the original frame swapped.
+func (e *c03Env) replyThroughDae0(f *c03Flow, desc string, orig ksRunIn) {
+	o := c03FrameOpts{Flags: ksTCPAck, Payload: 8, Reverse: true, HookL2: true}
+	frame, proto := e.frame(f, &o)
+	in := ksRunIn{Meta: ksSkbMeta{Protocol: proto, Ifindex: c03DaeIf, IngressIfindex: c03DaeIf}, Frame: frame, LinearLen: uint32(len(frame))}
+	out := e.run("dae0_ingress reply", "tproxy_dae0_ingress", in)
+	fromWan := !f.lanSide()
+	wantIf, wantFlags, wantType := uint32(c03LanIf), uint64(0), uint32(3) // PACKET_OTHERHOST
+	hookL2 := e.lanL2
+	if fromWan {
+		wantIf, wantFlags, wantType, hookL2 = c03WanIf, 1 /* BPF_F_INGRESS */, 0, e.wanL2
+	}
+	var smac, dmac [6]byte
+	if hookL2 {
+		copy(dmac[:], orig.Frame[0:6])
+		copy(smac[:], orig.Frame[6:12])
+	}
+	if e.verdictName(out.Verdict) != "REDIRECT" || out.RedirectIfindex != wantIf || out.RedirectFlags != wantFlags || out.PktType != wantType {
+		e.failf("%s: reply from dae at dae0_ingress: verdict %s to ifindex %d flags %#x pkt_type %d, want REDIRECT to %d flags %#x pkt_type %d",
+			desc, e.verdictName(out.Verdict), out.RedirectIfindex, out.RedirectFlags, out.PktType, wantIf, wantFlags, wantType)
+	}
+	if len(out.Frame) != len(frame) || !bytes.Equal(out.Frame[0:6], smac[:]) || !bytes.Equal(out.Frame[6:12], dmac[:]) || !bytes.Equal(out.Frame[12:], frame[12:]) {
+		e.failf("%s: reply from dae at dae0_ingress: link addresses %x, want dst %x src %x (rest of the frame unchanged)", desc, out.Frame[:12], smac, dmac)
+	}
+	e.class("dae0_ingress_reply_checked")
 }
 
 // ------------------------------------------------------------------- generators
